@@ -128,7 +128,7 @@ var tokRe = regexp.MustCompile(`"(?:[^"\\\n]|\\.)*"|/(?:[^/\\\n]|\\.)+/|[A-Za-z_
 
 func main() {
 	c := vlib.Init("exploration")
-	rule := "families: (1) all byte strings of length<=2; (2) all token sequences of length<=3 (thorough 4) over a 60-token alphabet; (3) every prefix and single-token deletion (thorough: also duplication and 4 replacements) of every example program and test program corpus; (4) nesting families across the recursion limit and regex-length families across 1024; unterminated strings/regexes. Each input: no panic, exactly one of {code, non-empty errors}, finishes, second compile identical. distinct_nontrivial = distinct inputs the compiler accepted"
+	rule := "families: (1) all byte strings of length<=2; (2) all token sequences of length<=3 (thorough 4) over a 60-token alphabet; (3) every prefix and single-token deletion (thorough: also duplication and 4 replacements) of every example program and test program corpus; (4) nesting families across the recursion limit and regex-length families across 1024; unterminated strings/regexes; (5) well-formed statements in context: every binary operator between every pair of 14 atoms (constants of each type, typed captures, metrics, pattern constants), unary forms, all constant-only depth-2 trees over 6 constants and 11 arithmetic/bitwise operators, every builtin with 0-3 arguments from the atoms; (6) pattern constants doubling per line (allocation growth). Each input: no panic, exactly one of {code, non-empty errors}, finishes, second compile identical. distinct_nontrivial = distinct inputs the compiler accepted"
 	nw := runtime.NumCPU()
 	for i := 0; i < nw; i++ {
 		slots = append(slots, &slot{})
@@ -223,6 +223,122 @@ func main() {
 		add("unterminated", "/"+strings.Repeat("a", n))
 		add("unterminated", "/"+strings.Repeat("a", n)+"\n")
 		add("unterminated", "text t\n/x/ {\n  t = \""+strings.Repeat("\\", n))
+	}
+	// (5) well-formed statements in context: every binary operator between every pair of atoms (constants
+	// of each type, typed captures, metrics, pattern constants), constant-only depth-2 trees (the folder's
+	// domain), every builtin with 0-3 arguments from the atom set; declarations are generated on demand so
+	// that the checker does not stop at an unused symbol and the optimiser and code generator are reached.
+	{
+		atoms := []string{"0", "1", "-1", "2", "64", "1.5", "\"s\"", "$1", "$2", "$3", "g", "t", "A", "/x/"}
+		consts := []string{"1", "-1", "2", "70", "1.5", "0"}
+		ops := []string{"+", "-", "*", "/", "%", "**", "<<", ">>", "&", "|", "^", "<", "<=", ">", ">=", "==", "!=", "&&", "||", "=~", "!~"}
+		wrap := func(fam, stmt string) {
+			var decl strings.Builder
+			has := func(id string) bool {
+				return regexp.MustCompile(`(^|[^A-Za-z0-9_$"])` + id + `($|[^A-Za-z0-9_"])`).MatchString(stmt)
+			}
+			if has("c") {
+				decl.WriteString("counter c\n")
+			}
+			if has("g") {
+				decl.WriteString("gauge g\n")
+			}
+			if has("t") {
+				decl.WriteString("text t\n")
+			}
+			if has("d") {
+				decl.WriteString("counter d by k\n")
+			}
+			if has("A") {
+				decl.WriteString("const A /a/\n")
+			}
+			add(fam, decl.String()+"/^(\\S+) (\\d+) (\\d+\\.\\d+)$/ {\n  "+stmt+"\n}\n")
+		}
+		ctxs := []string{"g = %s", "%s {\n  }", "d[%s]++", "t = %s", "c += %s"}
+		if c.Quick() {
+			ctxs = ctxs[:3]
+		}
+		for _, x := range atoms {
+			for _, y := range atoms {
+				for _, o := range ops {
+					for _, cx := range ctxs {
+						wrap("binary-in-context", fmt.Sprintf(cx, x+" "+o+" "+y))
+					}
+				}
+			}
+			for _, cx := range ctxs {
+				wrap("unary-in-context", fmt.Sprintf(cx, "~"+x))
+				wrap("unary-in-context", fmt.Sprintf(cx, "~ ("+x+" > 1)"))
+			}
+		}
+		for _, x := range consts {
+			for _, y := range consts {
+				for _, z := range consts {
+					for _, o1 := range ops[:11] {
+						for _, o2 := range ops[:11] {
+							wrap("const-tree", "g = ("+x+" "+o1+" "+y+") "+o2+" "+z)
+							if c.Thorough() {
+								wrap("const-tree", "g = "+x+" "+o1+" ("+y+" "+o2+" "+z+")")
+								wrap("const-tree", "("+x+" "+o1+" "+y+") "+o2+" "+z+" > 0 {\n  }")
+							}
+						}
+					}
+				}
+			}
+		}
+		args := append(append([]string{}, atoms...), "A + \"b\"", "\"b\" + A", "$1 + \"b\"")
+		builtins := []string{"strptime", "timestamp", "len", "tolower", "settime", "getfilename", "int", "float", "string", "strtol", "subst"}
+		for _, f := range builtins {
+			var calls []string
+			calls = append(calls, f+"()")
+			for _, a := range args {
+				calls = append(calls, f+"("+a+")")
+				for _, b := range args {
+					calls = append(calls, f+"("+a+", "+b+")")
+					if f == "subst" || f == "strptime" || c.Thorough() {
+						for _, d := range args {
+							calls = append(calls, f+"("+a+", "+b+", "+d+")")
+						}
+					}
+				}
+			}
+			for _, call := range calls {
+				wrap("builtin-call", "g = "+call)
+				wrap("builtin-call", "t = "+call)
+				wrap("builtin-call", call)
+			}
+		}
+	}
+	// (6) resource growth: pattern constants that double per line.  Measured sequentially (allocation
+	// volume, not time): compiling n lines must not cost exponentially more than compiling n/2 lines.
+	{
+		mk := func(n int) string {
+			var b strings.Builder
+			b.WriteString("const A0 /x/\n")
+			for i := 1; i <= n; i++ {
+				fmt.Fprintf(&b, "const A%d /x/ + A%d + A%d\n", i, i-1, i-1)
+			}
+			return b.String()
+		}
+		alloc := func(src string) uint64 {
+			var m0, m1 runtime.MemStats
+			runtime.GC()
+			runtime.ReadMemStats(&m0)
+			compileOnce(src)
+			runtime.ReadMemStats(&m1)
+			return m1.TotalAlloc - m0.TotalAlloc
+		}
+		use := func(n int) string { return mk(n) + fmt.Sprintf("/y/ + A%d {\n}\n", n) }
+		a10, a20 := alloc(use(10)), alloc(use(20))
+		c.Set("const_doubling_alloc_bytes", map[string]uint64{"10_lines": a10, "20_lines": a20})
+		c.Eval("const-doubling")
+		if a20 > 40*a10 {
+			c.Report("superlinear const-doubling", fmt.Sprintf("compiling 20 lines of pattern constants that each concatenate the previous one twice allocates %d bytes, %d times the %d bytes of the 10-line version: the expansion doubles per line (about 30 lines exhaust memory) before the pattern length limit applies", a20, a20/a10, a10), map[string]string{"source": use(20)})
+		}
+		for n := 1; n <= 14; n++ {
+			add("const-doubling", mk(n))
+			add("const-doubling", mk(n)+fmt.Sprintf("/y/ + A%d {\n}\n", n))
+		}
 	}
 	vlib.ParallelW(len(inputs), nw, func(w, i int) {
 		check(c, w, inputs[i].fam, inputs[i].src)
